@@ -64,7 +64,16 @@ def generate(rng, tier):
         if rng.chance(40):
             ext.append(mkpkg("ext1", "ext1"))
             ext[0]["deps"].append("ext1")
-        rng.choice(pk)["deps"].append("ext0")
+        user0 = rng.choice(pk)
+        user0["deps"].append("ext0")
+        others = [p for p in pk if p is not user0]
+        if others and rng.chance(35):
+            # another package that carries the same *name* as ext0 (a different version, in another directory), used by
+            # another member: a different local path dependency, to be formatted like any other
+            dup = mkpkg("extdup", "extdup")
+            dup["pname"], dup["version"] = "ext0", "0.2.0"
+            ext.append(dup)
+            rng.choice(others)["deps"].append("extdup")
     for i in range(1, nmem):
         if rng.chance(35):
             pk[i]["deps"].append(pk[rng.below(i)]["name"])
@@ -84,7 +93,7 @@ def generate(rng, tier):
                 byname[dn]["targets"].append({"kind": "lib", "edition": None})
 
     def render(p, workspace_hdr=""):
-        lines = ["[package]", 'name = "%s"' % p["name"], 'version = "0.1.0"']
+        lines = ["[package]", 'name = "%s"' % p.get("pname", p["name"]), 'version = "%s"' % p.get("version", "0.1.0")]
         if p["edition"]:
             lines.append('edition = "%s"' % p["edition"])
         has_build = any(t["kind"] == "build" for t in p["targets"])
@@ -133,7 +142,7 @@ def generate(rng, tier):
                 lines += ["", "[%s]" % sect]
                 for dn in ds:
                     rel = os.path.relpath(byname[dn]["dir"], p["dir"])
-                    lines.append('%s = { path = "%s" }' % (dn, rel))
+                    lines.append('%s = { path = "%s" }' % (byname[dn].get("pname", dn), rel))
         files[os.path.join(p["dir"], "Cargo.toml")] = "\n".join(lines) + "\n" + workspace_hdr
 
     # a source file shared by targets of two different packages, reached through `..` from the second one
@@ -184,9 +193,11 @@ def generate(rng, tier):
         manifest = os.path.join(rng.choice(pk)["dir"], "Cargo.toml")
     elif mk < 19:
         manifest = "ws/NoSuch/Cargo.toml"
+    elif mk < 27 and "ws/Cargo.toml" in files:
+        manifest = "ws/Cargo.toml"  # the workspace's own manifest, virtual or not
     elif mk < 23:
         manifest = os.path.join(pk[0]["dir"], "Cargo.lock")  # does not end in Cargo.toml
-    mspell = rng.choice(["plain", "plain", "dotdot", "symlink", "relative"]) if manifest and manifest.endswith("Cargo.toml") and mk < 15 else "plain"
+    mspell = rng.choice(["plain", "plain", "dotdot", "symlink", "relative"]) if manifest and manifest.endswith("Cargo.toml") and (mk < 15 or manifest == "ws/Cargo.toml") else "plain"
     if mspell == "symlink":
         files["wslink"] = {"symlink": "ws"}
     check = rng.chance(30)
@@ -274,8 +285,12 @@ def execute(case):
                             names.add(d)
                             todo.append(d)
                 local = []
+                bymanifest = {os.path.realpath(p["manifest_path"]): p for p in md["packages"] if p["source"] is None}
                 for n in sorted(names):
-                    if n in pk and pk[n]["source"] is None:
+                    mp_ = os.path.realpath(os.path.join(sc.root, case["dirs"][n], "Cargo.toml")) if n in case.get("dirs", {}) else None
+                    if mp_ in bymanifest:
+                        local.append(bymanifest[mp_])
+                    elif mp_ is None and n in pk and pk[n]["source"] is None:
                         local.append(pk[n])
                     else:
                         md1, _ = reference_metadata(sc, ".", os.path.join(case["dirs"][n], "Cargo.toml"), nodeps=True)
@@ -306,6 +321,9 @@ def execute(case):
                 if cur is not None:
                     acc.append(tmap([cur]))
                 if at_ws_root and not manifest:
+                    acc.append(tmap(mem_pk))
+                if at_ws_root and manifest and cur is None:
+                    # the manifest of a virtual workspace named explicitly: the same selection as from its directory
                     acc.append(tmap(mem_pk))
                 if not acc:
                     invalid, reason = True, "no current package (virtual manifest)"
